@@ -71,6 +71,7 @@ type handle struct {
 	ref   *os.File
 	flag  int
 	isDir bool
+	used  bool // a data-touching call (read, write, stat, truncate) was made through this handle
 }
 
 type machine struct {
@@ -168,6 +169,9 @@ func (m *machine) step(a Act) (sig, msg string) {
 			base += ",dir"
 		}
 		base += "]"
+	}
+	if h != nil && (a.K == "read" || a.K == "readat" || a.K == "write" || a.K == "writeat" || a.K == "truncate" || a.K == "stat") {
+		h.used = true
 	}
 	var pan string
 	var hung bool
@@ -474,6 +478,10 @@ func drawAct(t *rapid.T, m *machine) Act {
 		return Act{K: k, Slot: slot, N: 8}
 	}
 	k := rapid.SampledFrom([]string{"read", "read", "readat", "write", "write", "writeat", "seek", "seek", "truncate", "stat", "close"}).Draw(t, "kind")
+	if !h.used && rapid.IntRange(0, 2).Draw(t, "freshseek") == 0 {
+		// a handle that has not touched the data yet: position-only calls are where a stale size would show
+		k = "seek"
+	}
 	a := Act{K: k, Slot: slot}
 	// a zero-length read on a write-only handle is not generated: os.File short-circuits len(p)==0 to (0,nil)
 	// before looking at the descriptor, which the statement's "a write-only handle can never read" does not pin.
@@ -504,6 +512,9 @@ func drawAct(t *rapid.T, m *machine) Act {
 		a.Off = off("off")
 	case "seek":
 		a.Whence = rapid.SampledFrom([]int{0, 0, 1, 1, 2, 2, 7}).Draw(t, "whence")
+		if !h.used {
+			a.Whence = rapid.SampledFrom([]int{2, 2, 2, 0, 1}).Draw(t, "freshwhence")
+		}
 		switch a.Whence {
 		case 2:
 			a.Off = int64(rapid.IntRange(-int(size)-2, 12).Draw(t, "off"))
